@@ -14,6 +14,9 @@ struct Simplifier {
     std::vector<GateTarget> qs1_buf;
     std::vector<GateTarget> qs2_buf;
     std::vector<GateTarget> qs_buf;
+    std::vector<GateTarget> ps_buf;
+    std::vector<GateTarget> ms1_buf;
+    std::vector<GateTarget> ms2_buf;
 
     Simplifier(size_t num_qubits, std::function<void(const CircuitInstruction &inst)> init_yield)
         : num_qubits(num_qubits), yield(init_yield), used(num_qubits) {
@@ -80,6 +83,12 @@ struct Simplifier {
 
     void simplify_disjoint_1q_instruction(const CircuitInstruction &inst) {
         const auto &ts = inst.targets;
+        // Measurement targets with the result inversion removed, for the gates around the measurement.
+        qs_buf.clear();
+        for (auto t : ts) {
+            qs_buf.push_back(t.is_inverted_result_target() ? GateTarget::qubit(t.qubit_value()) : t);
+        }
+        const auto &qs = qs_buf;
 
         switch (inst.gate_type) {
             case GateType::I:
@@ -221,41 +230,41 @@ struct Simplifier {
                 break;
 
             case GateType::MX:
-                yield({GateType::H, {}, ts, inst.tag});
+                yield({GateType::H, {}, qs, inst.tag});
                 yield({GateType::M, inst.args, ts, inst.tag});
-                yield({GateType::H, {}, ts, inst.tag});
+                yield({GateType::H, {}, qs, inst.tag});
                 break;
             case GateType::MY:
-                yield({GateType::S, {}, ts, inst.tag});
-                yield({GateType::S, {}, ts, inst.tag});
-                yield({GateType::S, {}, ts, inst.tag});
-                yield({GateType::H, {}, ts, inst.tag});
+                yield({GateType::S, {}, qs, inst.tag});
+                yield({GateType::S, {}, qs, inst.tag});
+                yield({GateType::S, {}, qs, inst.tag});
+                yield({GateType::H, {}, qs, inst.tag});
                 yield({GateType::M, inst.args, ts, inst.tag});
-                yield({GateType::H, {}, ts, inst.tag});
-                yield({GateType::S, {}, ts, inst.tag});
+                yield({GateType::H, {}, qs, inst.tag});
+                yield({GateType::S, {}, qs, inst.tag});
                 break;
             case GateType::M:
                 yield({GateType::M, inst.args, ts, inst.tag});
                 break;
             case GateType::MRX:
-                yield({GateType::H, {}, ts, inst.tag});
+                yield({GateType::H, {}, qs, inst.tag});
                 yield({GateType::M, inst.args, ts, inst.tag});
-                yield({GateType::R, {}, ts, inst.tag});
-                yield({GateType::H, {}, ts, inst.tag});
+                yield({GateType::R, {}, qs, inst.tag});
+                yield({GateType::H, {}, qs, inst.tag});
                 break;
             case GateType::MRY:
-                yield({GateType::S, {}, ts, inst.tag});
-                yield({GateType::S, {}, ts, inst.tag});
-                yield({GateType::S, {}, ts, inst.tag});
-                yield({GateType::H, {}, ts, inst.tag});
+                yield({GateType::S, {}, qs, inst.tag});
+                yield({GateType::S, {}, qs, inst.tag});
+                yield({GateType::S, {}, qs, inst.tag});
+                yield({GateType::H, {}, qs, inst.tag});
                 yield({GateType::M, inst.args, ts, inst.tag});
-                yield({GateType::R, {}, ts, inst.tag});
-                yield({GateType::H, {}, ts, inst.tag});
-                yield({GateType::S, {}, ts, inst.tag});
+                yield({GateType::R, {}, qs, inst.tag});
+                yield({GateType::H, {}, qs, inst.tag});
+                yield({GateType::S, {}, qs, inst.tag});
                 break;
             case GateType::MR:
                 yield({GateType::M, inst.args, ts, inst.tag});
-                yield({GateType::R, {}, ts, inst.tag});
+                yield({GateType::R, {}, qs, inst.tag});
                 break;
             case GateType::RX:
                 yield({GateType::R, {}, ts, inst.tag});
@@ -280,9 +289,20 @@ struct Simplifier {
         qs_buf.clear();
         qs1_buf.clear();
         qs2_buf.clear();
+        ps_buf.clear();
+        ms1_buf.clear();
+        ms2_buf.clear();
         for (size_t k = 0; k < inst.targets.size(); k += 2) {
             auto a = inst.targets[k];
             auto b = inst.targets[k + 1];
+            if (a.has_qubit_value() && b.has_qubit_value()) {
+                // Pair measurements: the pair without result inversion, and each qubit carrying the pair's inversion.
+                bool inverted = a.is_inverted_result_target() ^ b.is_inverted_result_target();
+                ps_buf.push_back(GateTarget::qubit(a.qubit_value()));
+                ps_buf.push_back(GateTarget::qubit(b.qubit_value()));
+                ms1_buf.push_back(GateTarget::qubit(a.qubit_value(), inverted));
+                ms2_buf.push_back(GateTarget::qubit(b.qubit_value(), inverted));
+            }
             if (a.has_qubit_value()) {
                 auto t = GateTarget::qubit(a.qubit_value());
                 qs1_buf.push_back(t);
@@ -444,27 +464,27 @@ struct Simplifier {
                 break;
 
             case GateType::MXX:
-                yield({GateType::CX, {}, ts, inst.tag});
+                yield({GateType::CX, {}, ps_buf, inst.tag});
                 yield({GateType::H, {}, qs1_buf, inst.tag});
-                yield({GateType::M, inst.args, qs1_buf, inst.tag});
+                yield({GateType::M, inst.args, ms1_buf, inst.tag});
                 yield({GateType::H, {}, qs1_buf, inst.tag});
-                yield({GateType::CX, {}, ts, inst.tag});
+                yield({GateType::CX, {}, ps_buf, inst.tag});
                 break;
             case GateType::MYY:
                 yield({GateType::S, {}, qs_buf, inst.tag});
-                yield({GateType::CX, {}, ts, inst.tag});
+                yield({GateType::CX, {}, ps_buf, inst.tag});
                 yield({GateType::S, {}, qs2_buf, inst.tag});
                 yield({GateType::S, {}, qs2_buf, inst.tag});
                 yield({GateType::H, {}, qs1_buf, inst.tag});
-                yield({GateType::M, inst.args, qs1_buf, inst.tag});
+                yield({GateType::M, inst.args, ms1_buf, inst.tag});
                 yield({GateType::H, {}, qs1_buf, inst.tag});
-                yield({GateType::CX, {}, ts, inst.tag});
+                yield({GateType::CX, {}, ps_buf, inst.tag});
                 yield({GateType::S, {}, qs_buf, inst.tag});
                 break;
             case GateType::MZZ:
-                yield({GateType::CX, {}, ts, inst.tag});
-                yield({GateType::M, inst.args, qs2_buf, inst.tag});
-                yield({GateType::CX, {}, ts, inst.tag});
+                yield({GateType::CX, {}, ps_buf, inst.tag});
+                yield({GateType::M, inst.args, ms2_buf, inst.tag});
+                yield({GateType::CX, {}, ps_buf, inst.tag});
                 break;
 
             default:
